@@ -449,4 +449,22 @@ def pyvalues():
     return '\n'.join(out) + '\n'
 
 
-FILES = {'PyCuts.v': pycuts, 'PyValues.v': pyvalues}
+def pysplit():
+    post = ast.parse(_src('sknetwork/hierarchy/postprocess.py'))
+    fn = _func(post, 'split_dendrogram')
+    b = list(fn.body)
+    if b and isinstance(b[0], ast.Expr) and isinstance(b[0].value, ast.Constant) and isinstance(b[0].value.value, str):
+        b = b[1:]
+    if not isinstance(b[-1], ast.Return):
+        raise TranslateError('split_dendrogram: expected a final return')
+    out = ['(* generated from sknetwork/hierarchy/postprocess.py by harness/translators/pyimp.py *)',
+           'From SKN Require Import Base.Util Model.PyImp.',
+           'From Coq Require Import String.',
+           'Local Open Scope string_scope.', '',
+           'Definition src_split_params : list string := %s.' % _strs([a.arg for a in fn.args.args]),
+           'Definition src_split_dendrogram : stmt :=\n %s.' % Tr().block(b[:-1]),
+           'Definition src_split_return : string := %s.' % _cstr(ast.unparse(b[-1]))]
+    return '\n'.join(out) + '\n'
+
+
+FILES = {'PyCuts.v': pycuts, 'PyValues.v': pyvalues, 'PySplit.v': pysplit}
